@@ -151,6 +151,25 @@ def rkIntSpec (w : Nat) : Int :=
   let n := w / 4 % 1073741824
   if n < 536870912 then (n : Int) else (n : Int) - 1073741824
 
+/-- BErr ([MS-XLSB] 2.5.97.2, the same byte as [MS-XLS] 2.5.10 BErr): error code → error value, written from the
+    specification (independent of the code; `Gen.xlsbErrTable` is the code's table) -/
+def berrTable : List (Nat × CellErrorType) :=
+  [(0x00, .null), (0x07, .div0), (0x0F, .value), (0x17, .ref), (0x1D, .name), (0x24, .num), (0x2A, .nA),
+   (0x2B, .gettingData)]
+
+/-- the error value a code stands for -/
+def berrKind (c : Nat) : Option CellErrorType := berrTable.lookup c
+
+/-- the code of an error value -/
+def berrCode : CellErrorType → Nat
+  | .null => 0x00 | .div0 => 0x07 | .value => 0x0F | .ref => 0x17 | .name => 0x1D | .num => 0x24 | .nA => 0x2A
+  | .gettingData => 0x2B
+
+/-- how Excel displays the error value -/
+def berrText : CellErrorType → String
+  | .null => "#NULL!" | .div0 => "#DIV/0!" | .value => "#VALUE!" | .ref => "#REF!" | .name => "#NAME?"
+  | .num => "#NUM!" | .nA => "#N/A" | .gettingData => "#GETTING_DATA"
+
 /-- number → value under a style: date/time styles give `DateTime`, anything else `Float` -/
 def styled (ctx : Ctx) (style : Nat) (bits : Nat) : Val :=
   match ctx.formats[style % 16777216]? with
@@ -173,7 +192,7 @@ def valueOf (ctx : Ctx) (style : Nat) : Content → Option Val
       -- the 30 high bits of a double
       let bits := (w / 4) * 17179869184
       some (styled ctx style (if w % 2 = 1 then fdiv100 bits else bits))
-  | .err c => if isErrCode c then some (.error c) else none
+  | .err c => if (berrKind c).isSome then some (.error c) else none
   | .bool b => some (.bool (b % 256 ≠ 0))
   | .real bits => some (styled ctx style bits)
   | .str us => some (.str us)
@@ -272,13 +291,45 @@ def GridSorted (S : List (Nat × Nat × Val)) : Prop :=
 
 /-! ### the shared string table part -/
 
-/-- a BrtSSTItem record: flags byte (no rich text, no phonetic data) and the string -/
-def sstItem (s : List Nat) (wide : Bool) (lenW : Nat) : Framed := ⟨.raw 0x0013 (0 :: wideBytes s), wide, lenW⟩
+/-- One BrtSSTItem ([MS-XLSB] 2.4.743, RichStr 2.5.121): the text, optionally rich-text runs (`fRichStr`: StrRun =
+    character index, font index), optionally phonetic data (`fExtStr`: the phonetic string and its PhRun triples
+    ichFirst, ichMom, cchMom), the records the reader passes over in front of the item (any record but
+    BrtSSTItem, or a block 0x0023 … 0x0024 of future records) and the framing widths of the item record. -/
+structure SstEntry where
+  text : List Nat
+  runs : Option (List (Nat × Nat))
+  phon : Option (List Nat × List (Nat × Nat × Nat))
+  pre : List Seg
+  wide : Bool
+  lenW : Nat
 
-/-- the bytes of `xl/sharedStrings.bin`: BrtBeginSst (total count, unique count), one BrtSSTItem per string
-    (each with its own framing widths), then anything (BrtEndSst) -/
-def sstBytes (total : Nat) (hw : Bool) (hl : Nat) (strs : List (List Nat × Bool × Nat)) (post : Bytes) : Bytes :=
-  frame 0x009F (le32 total ++ le32 strs.length) hw hl ++
-    (encodeItems (strs.map fun s => sstItem s.1 s.2.1 s.2.2) ++ post)
+/-- the flags byte: bit 0 `fRichStr`, bit 1 `fExtStr` -/
+def SstEntry.flags (e : SstEntry) : Nat := (if e.runs.isSome then 1 else 0) + (if e.phon.isSome then 2 else 0)
+
+/-- `dwSizeStrRun`, `rgsStrRun` -/
+def runsBytes (rs : List (Nat × Nat)) : Bytes := le32 rs.length ++ rs.flatMap (fun r => le16 r.1 ++ le16 r.2)
+
+/-- `phoneticStr`, `dwPhoneticRun`, `rgsPhRun` -/
+def phonBytes (p : List Nat × List (Nat × Nat × Nat)) : Bytes :=
+  wideBytes p.1 ++ le32 p.2.length ++ p.2.flatMap (fun r => le16 r.1 ++ le16 r.2.1 ++ le16 r.2.2)
+
+def SstEntry.trailer (e : SstEntry) : Bytes :=
+  (match e.runs with | some rs => runsBytes rs | none => []) ++ (match e.phon with | some p => phonBytes p | none => [])
+
+def SstEntry.payload (e : SstEntry) : Bytes := UInt8.ofNat e.flags :: (wideBytes e.text ++ e.trailer)
+
+/-- sizes the framing and the string layout can express -/
+def SstEntry.OK (e : SstEntry) : Prop :=
+  e.text.length < 100000000 ∧ (∀ u ∈ e.text, u < 65536) ∧ e.payload.length < 268435456 ∧
+  ∀ s ∈ e.pre, s.OK 0x0013 [(0x0023, some 0x0024)]
+
+def sstEntriesBytes : List SstEntry → Bytes → Bytes
+  | [], post => post
+  | e :: rest, post => encodeSegs e.pre ++ (frame 0x0013 e.payload e.wide e.lenW ++ sstEntriesBytes rest post)
+
+/-- the bytes of `xl/sharedStrings.bin`: records in front, BrtBeginSst (total count, unique count), the items
+    (each with the records in front of it), then anything (BrtEndSst) -/
+def sstBytes (pre0 : List Seg) (total : Nat) (hw : Bool) (hl : Nat) (entries : List SstEntry) (post : Bytes) : Bytes :=
+  encodeSegs pre0 ++ (frame 0x009F (le32 total ++ le32 entries.length) hw hl ++ sstEntriesBytes entries post)
 
 end Xlsb
